@@ -224,6 +224,9 @@ inductive Stmt where
   | resumeNext
   | end_
   | clear
+  /-- `RETURN <line with index k>`: pops the GOSUB stack like RETURN (re-arming the trap whose handler frame it was)
+      and continues at line k instead of the return position -/
+  | retTo (k : Nat)
   /-- `GOTO <line with index k>` (in the program: the guard after the final END; in direct mode: re-enter the program) -/
   | goto (k : Nat)
   /-- `CONT` (direct mode only) -/
@@ -303,6 +306,10 @@ def exec (p : Prog) (v : Vm) : Stmt → Vm
     match v.rstack with
     | [] => raiseTo p v
     | r :: rs => { applyEv v .ret with rstack := rs, pc := r }
+  | .retTo k =>
+    match v.rstack with
+    | [] => raiseTo p v
+    | _ :: rs => { applyEv v .ret with rstack := rs, pc := k }
   | .resumeNext =>
     if v.errDirect then
       -- back to the direct line, whose only statement is skipped: control returns to the prompt
